@@ -8,8 +8,11 @@
    An entry is (file, ordered arguments of one function); entries are sorted, function names are
    not part of the key (renaming or reordering functions inside a file is not a change).
    Notation of an argument: constants and field names literally; local names (parameters,
-   let-bound variables) as $1, $2, .. in the order of their first occurrence in the function
-   (a rename is not a change, a swap is); "&", ".as_slice()", "[..]" dropped.
+   let-bound variables) as $1, $2, .. in the order of their first occurrence in the hashed
+   sequence, i.e. the layout is kept up to a consistent renaming of the locals: insertions,
+   removals, constants, field names and the pattern of repetitions are part of it, WHICH local is
+   which is decided by execution (byte-exact correspondence, RFC judge); "&", ".as_slice()",
+   "[..]" dropped.
 
    (Preimages assembled with copy_from_slice at constant offsets -- the iteration buffer of the
    hash chains, the top-seed and child-seed blocks -- are tied through the offsets in [consts].) *)
@@ -28,33 +31,33 @@ Definition model_hash_inputs : list (string * list string) :=
   ("hasher/shake256.rs", ["$1"]);
   (* compute_hmac -- Aux.hmac: inner hash continues with the data *)
   ("hss/aux.rs", ["$1"]);
+  (* compute_seed_derive -- Aux.aux_key: H (prefix ++ seed) *)
+  ("hss/aux.rs", ["$1"; "$2"]);
   (* compute_hmac_ipad / _opad -- Aux.hmac / xor_pad:
      H (key xor ipad ++ ipad tail ++ data), H (key xor opad ++ opad tail ++ inner) *)
   ("hss/aux.rs", ["$1"; "IPAD_ARRAY[H::OUTPUT_SIZE.into()..H::BLOCK_SIZE.into()]"]);
   ("hss/aux.rs", ["$1"; "OPAD_ARRAY[H::OUTPUT_SIZE.into()..H::BLOCK_SIZE.into()]"; "$2"]);
   (* hss_finalize_aux_data -- Aux.finalize_aux: hmac key (be 4 level ++ concat layers) *)
   ("hss/aux.rs", ["$1.level.to_be_bytes()"; "$2"]);
-  (* compute_seed_derive -- Aux.aux_key: H (prefix ++ seed) *)
-  ("hss/aux.rs", ["$2"; "$1"]);
   (* generate_root_seed_and_lms_tree_identifier -- Derive.root_seed_I: three hashes of the top-seed block *)
   ("hss/reference_impl_private_key.rs", ["$1"; "$1"; "$1"]);
   (* SeedDerive::seed_derive -- Derive.seed_derive: H (block) *)
   ("hss/seed_derive.rs", ["$1"]);
   (* generate_private_key -- Lmots.ots_priv: H (I ++ q ++ u16 i ++ 0xff ++ seed) *)
-  ("lm_ots/keygen.rs", ["$1"; "$2"; "$4.to_be_bytes()"; "[0xff]"; "$3"]);
+  ("lm_ots/keygen.rs", ["$1"; "$2"; "$3.to_be_bytes()"; "[0xff]"; "$4"]);
   (* generate_public_key -- Lmots.ots_pub_of: H (I ++ q ++ D_PBLC ++ y_0 .. y_{p-1}) *)
   ("lm_ots/keygen.rs", ["$1.lms_tree_identifier"; "$1.lms_leaf_identifier"; "D_PBLC"; "$2"]);
   (* calculate_message_hash -- Lmots.ots_msg_hash: H (I ++ q ++ D_MESG ++ C ++ message) *)
   ("lm_ots/signing.rs", ["$1.lms_tree_identifier"; "$1.lms_leaf_identifier"; "D_MESG"; "$2"; "$3"]);
   (* generate_public_key_candidate -- Lmots.ots_candidate: the same message hash, then
-     H (I ++ q ++ D_PBLC ++ z_0 .. z_{p-1}) *)
-  ("lm_ots/verify.rs", ["$2"; "$3"; "D_MESG"; "$1.signature_randomizer"; "$4"; "$2"; "$3"; "D_PBLC"; "$5"]);
+     H (I ++ q ++ D_PBLC ++ z_0 .. z_{p-1}); the same I and q in both *)
+  ("lm_ots/verify.rs", ["$1"; "$2"; "D_MESG"; "$3.signature_randomizer"; "$4"; "$1"; "$2"; "D_PBLC"; "$5"]);
   (* get_tree_element -- Lms.leaf_hash, Lms.intr_hash *)
-  ("lms/helper.rs", ["$2.lms_tree_identifier"; "($1 as u32).to_be_bytes()"; "D_LEAF"; "$3.key"; "D_INTR"; "$4"; "$5"]);
+  ("lms/helper.rs", ["$1.lms_tree_identifier"; "($2 as u32).to_be_bytes()"; "D_LEAF"; "$3.key"; "D_INTR"; "$4"; "$5"]);
   (* generate_public_key_candidate -- Lms.lms_candidate / climb: leaf hash of the candidate, then
-     interior hashes of (left, right) *)
-  ("lms/verify.rs", ["$1.lms_tree_identifier"; "$3.to_be_bytes()"; "D_LEAF"; "$2";
-                     "$1.lms_tree_identifier"; "$3.to_be_bytes()"; "D_INTR"; "$4[0]"; "$4[1]"])
+     interior hashes of (left, right); the same I and node number in both *)
+  ("lms/verify.rs", ["$1.lms_tree_identifier"; "$2.to_be_bytes()"; "D_LEAF"; "$3";
+                     "$1.lms_tree_identifier"; "$2.to_be_bytes()"; "D_INTR"; "$4[0]"; "$4[1]"])
   ].
 
 Fixpoint strs_eqb (a b : list string) : bool :=
